@@ -79,6 +79,9 @@ def run(chk, facts):
         chk.anchor_fail("R-C09-2", e)
 
     field_init(chk, facts, "R-C09-3")
+    chk.rule("R-C09-4", "no element is dropped before it is checked: every zip/take/skip in the checker is length-guarded or reviewed (shared census, rules/quant.py)")
+    from .quant import truncation_census
+    truncation_census(chk, facts, "R-C09-4")
     chk.notes.append("C09: abstract interpretation of every generator function over the Environment record (assume/guarantee on the recursive entry).")
 
 
